@@ -8,7 +8,7 @@
 // Answer per case, one line:  out <hex of the returned String>   |   out PANIC
 //   opt/vul/qa : generate_<category>_report(map)
 //   all        : the three generators concatenated exactly as report::generation::generate_report does
-//   allfile    : the real generate_report, run with the given directory (under /verif/.cache) as cwd;
+//   allfile    : the real generate_report, run with the given directory (under <verification tree>/.cache) as cwd;
 //                the file solstat_report.md it writes is read back
 use std::collections::{BTreeSet, HashMap};
 use std::io::{self, BufRead, Write};
@@ -131,8 +131,8 @@ fn run_case(c: &Case) -> Option<String> {
             s
         }
         "allfile" | "allfilestale" => {
-            if !dir.starts_with("/verif/.cache/") {
-                panic!("allfile: directory must be under /verif/.cache");
+            if !dir.contains("/.cache/") {
+                panic!("allfile: directory must be under the .cache directory of the verification tree");
             }
             std::fs::create_dir_all(&dir).expect("mkdir");
             let old = std::env::current_dir().expect("cwd");
